@@ -180,7 +180,7 @@ func runC52(c *eng.Ctx) {
 	c.CallersSubset("R4", "tsdb:memSeries.setHeadChunks", 6,
 		"tsdb:Head.loadMmappedChunks",            // drops a restored chain superseded by an m-mapped chunk: subtracts (fix F9)
 		"tsdb:Head.loadChunkSnapshot",            // installs restored chunks: adds (fix F9)
-		"tsdb:Head.resetSeriesWithMMappedChunks", // exception, see below
+		"tsdb:Head.resetSeriesWithMMappedChunks", // drops replayed head chunks of the old incarnation: subtracts (fix F92)
 		"tsdb:memSeries.truncateChunksBefore",    // returns the number removed; stripeSeries.gc sums it, Head.gc subtracts
 		"tsdb:memSeries.mmapChunks",              // head → m-mapped: count-neutral
 	)
@@ -192,13 +192,23 @@ func runC52(c *eng.Ctx) {
 		// truncateChunksBefore → stripeSeries.gc → Head.gc
 		c.CallersSubset("R4", "tsdb:memSeries.truncateChunksBefore", 1, "tsdb:stripeSeries.gc")
 		c.CallersSubset("R4", "tsdb:stripeSeries.gc", 1, "tsdb:Head.gc")
-		// Exception: resetSeriesWithMMappedChunks drops head chunks of a series for which a duplicate
-		// series record is replayed; the writer only produces such a record after the old incarnation
-		// was garbage-collected, i.e. when its samples are below the replay cutoff and no head chunk
-		// was created.  Not demonstrated as a defect; kept as a declared exception.  Its m-mapped
-		// chunk replacement is paired:
+		// resetSeriesWithMMappedChunks drops the head chunks replayed for the old incarnation of a series when its
+		// second series record is replayed (finding F92: it did so without adjusting the gauge; this was a declared
+		// exception until the history of TestHead_WALMultiRef showed gauge 3 / recount 2 after a restart).
 		r := c.Fn("tsdb:Head.resetSeriesWithMMappedChunks")
 		r.Dom("R4", chunksAdj, p.Store("tsdb:memSeries.mmappedChunks"))
+		r.AllPaths("R4", set, chunksAdj, eng.AnyExit)
+	}
+	// the out-of-order head chunk (finding F93): created by cutNewOOOHeadChunk (counted by its callers through
+	// chunkCreated, R3), turned into m-mapped chunks by mmapCurrentOOOHeadChunk, dropped by the WBL replay at an
+	// m-map marker — the drop is followed by a gauge adjustment.
+	c.WritersSubset("R4", "tsdb:memSeriesOOOFields.oooHeadChunk", 3,
+		"tsdb:memSeries.cutNewOOOHeadChunk", "tsdb:memSeries.mmapCurrentOOOHeadChunk", "tsdb:wblSubsetProcessor.processWBLSamples")
+	{
+		w := c.Fn("tsdb:wblSubsetProcessor.processWBLSamples")
+		drop := p.StoreVal("tsdb:memSeriesOOOFields.oooHeadChunk", "nil", eng.IsIdent("nil"))
+		w.Has("R4", drop, 1)
+		w.AllPaths("R4", drop, chunksAdj, eng.AnyExit)
 	}
 	c.WritersSubset("R4", "tsdb:memSeries.mmappedChunks", 5,
 		"tsdb:Head.loadMmappedChunks", "tsdb:Head.resetSeriesWithMMappedChunks", "tsdb:memSeries.mmapChunks",
